@@ -114,6 +114,12 @@ func ruleHasBodyGate(c *Ctx, rule string) {
 	headerPresent := factContentLengthDeclared(isReq, isCLHeader)
 	n := 0
 	for _, ret := range returnsOf(hb) {
+		if isContentLengthPositiveExpr(ret.Results[0], isReq) {
+			// `return r.ContentLength > 0` behind "a length is declared"
+			n++
+			c.obI(rule, ret, "no-body-only-with-declared-length", guardedBy(ret, nil, anyFact(factContentLengthPositive(isReq), headerPresent)), "HasBody answers false without probing the stream only when a Content-Length header is present, so a body of undeclared length is always subjected to the content-type gate", "the answer ContentLength > 0 is returned although no length is declared")
+			continue
+		}
 		if b, ok := constBool(ret.Results[0]); ok && !b {
 			n++
 			c.obI(rule, ret, "no-body-only-with-declared-length", guardedBy(ret, nil, headerPresent), "HasBody answers false without probing the stream only when a Content-Length header is present, so a body of undeclared length is always subjected to the content-type gate", "constant false reachable although no length is declared")
@@ -344,32 +350,37 @@ func runC06(c *Ctx) {
 		}
 	}
 	var sawExact, sawAny, sawType bool
-	classify := func(arg ssa.Value) {
+	classify := func(arg ssa.Value) string {
 		if s, ok := constString(arg); ok && s == "*/*" {
 			sawAny = true
-			return
+			return "*/*"
 		}
 		if ok, _ := allOrigins(arg, oCall(0, "mime.ParseMediaType")); ok {
 			sawExact = true
-			return
+			return "exact"
 		}
+		form := ""
 		for _, o := range originsOf(arg) {
 			if bo, ok := o.V.(*ssa.BinOp); ok {
 				if s, ok := constString(bo.Y); ok && s == "/*" {
 					sawType = true
+					form = "type/*"
 				}
 			}
 		}
+		return form
 	}
 	for _, ci := range allCalls(vf) {
 		name := calleeName(ci.Common())
 		if strings.HasPrefix(name, "github.com/go-openapi/swag.ContainsStrings") {
 			c.obI("R06.3", ci, "case-insensitive-membership", name == "github.com/go-openapi/swag.ContainsStringsCI" && isAllowed(ci.Common().Args[0]), "membership in the consumes list is tested case-insensitively", "uses "+name)
-			classify(ci.Common().Args[1])
+			form := classify(ci.Common().Args[1])
+			c.obI("R06.3", ci, "admission-form-is-one-of-three", form != "", "what is looked up in the consumes list is the parsed media type, \"*/*\" or <type>/* — nothing else admits a body (no suffix, prefix or family rule: the consumer table is keyed by the exact type)", "the consumes list is searched for "+describe(ci.Common().Args[1]))
 		}
 		if call, isCall := ci.(*ssa.Call); isCall {
 			if other := foldOther(call); other != nil {
-				classify(other)
+				form := classify(other)
+				c.obI("R06.3", ci, "admission-form-is-one-of-three", form != "", "what an entry of the consumes list is compared with is the parsed media type, \"*/*\" or <type>/*", "an entry is compared with "+describe(other))
 			}
 		}
 	}
